@@ -7,11 +7,12 @@ From Orca Require Import Util Flat Lowering CheckLow Tree TreeLower WasmP SemPro
    time control continues after the construct (fall-through or a branch it catches); the plain interpreter
    on the tree lowering agrees, for every body, plan, configuration and fuel. *)
 Theorem C20_partial_semantic_after_on_constructs :
-  forall (ftypes : list (nat * nat)) (F : nat -> flags),
+  forall (ftypes : list (nat * nat)) (F : nat -> flags) (X : list fop),
+    pcode X ->     (* X: function-exit probes, spliced before return / unreachable / throw (C17); [] when there are none *)
     (forall i, pcode (bef F i) /\ pcode (aft F i) /\ pcode (be_ F i) /\ pcode (bx_ F i) /\ pcode (sa_ F i)) ->
     forall fuel body c ob,
-      exec ftypes F [] true fuel false body c = ob -> ob <> OFuel -> nbl F body ->
-      exists fuel', exec ftypes (fun _ => no_flags) [] false fuel' false (flat_map (lower F) body) c = ob.
+      exec ftypes F X true fuel false body c = ob -> ob <> OFuel -> nbl F body ->
+      exists fuel', exec ftypes (fun _ => no_flags) [] false fuel' false (flat_map (lower F X) body) c = ob.
 Proof. exact sim_closed. Qed.
 Print Assumptions C20_partial_semantic_after_on_constructs.
 
